@@ -32,6 +32,12 @@ Definition sink_cfg (p s : nat) : ncfg :=
 
 Definition init_of (k : fkind) : option Z := match k with FSource i => i | _ => None end.
 
+(* the state slot of a source before anything was captured: the scalars (initial delta) copied by the
+   start hook, otherwise the default-constructed delta value of the planned state (0 for TS<int>).  It is
+   observable only through the lifecycle observer line 17 (the source is never scheduled before a capture). *)
+Definition state0_of (k : fkind) : option Z :=
+  match k with FSource (Some v) => Some v | FSource None => Some 0 | _ => None end.
+
 (* start hooks.  Native nodes run user code; a source with an initial delta runs
    start_feedback_source_with_initial_delta: state := scalars (done in [fstart]) and
    graph->schedule_node(self, start_time), which is the raw request [ORaw 0]. *)
@@ -44,7 +50,7 @@ Definition fb_beh (kinds : list fkind) (beh : behaviour) : behaviour :=
     end.
 
 Definition fstart (cfgs : list ncfg) (kinds : list fkind) (beh : behaviour) (start : Z) : xst :=
-  mkF (start_graph cfgs (fb_beh kinds beh) start) (map init_of kinds).
+  mkF (start_graph cfgs (fb_beh kinds beh) start) (map state0_of kinds).
 
 (* ---- observation lines written by the lifecycle observer after a feedback node ran ---- *)
 Definition oval (o : option Z) : Z := match o with Some v => v | None => 0 end.
